@@ -116,15 +116,6 @@ Proof.
   - f_equal. eapply IH; eassumption.
 Qed.
 
-Lemma iid_eqb_eq a b : iid_eqb a b = true -> a = b.
-Proof.
-  destruct a as [s n], b as [t m]. unfold iid_eqb. simpl. intros H. apply andb_true_iff in H. destruct H as [H1 H2].
-  apply Nat.eqb_eq in H2. subst m. f_equal.
-  destruct s, t; simpl in H1; try discriminate;
-    repeat (apply andb_true_iff in H1; destruct H1 as [? H1]);
-    repeat match goal with H : N.eqb _ _ = true |- _ => apply N.eqb_eq in H end; subst; reflexivity.
-Qed.
-
 Lemma init_inv E fmts w b bk fmt :
   Inv E fmts w -> NS E fmts w -> nth_error (w_bks w) b = Some bk -> In fmt fmts ->
   Inv E fmts (init_pipeline E w b bk fmt) /\
@@ -235,7 +226,7 @@ Proof.
       destruct (fold_load_frame rs w) as [F1 [F2 F3]]. fold wl in F1, F2, F3.
       assert (Fo : w_owner wl = w_owner w).
       { unfold wl. clear. revert w. induction rs as [|r rs IH]; intros w; simpl; [reflexivity | rewrite IH; reflexivity]. }
-      assert (Hwfl : wf E wl) by (destruct Hwf as [A B]; split; [rewrite F1; exact A | rewrite F2; exact B]).
+      assert (Hwfl : wf E wl) by (apply fold_load_wf; exact Hwf).
       assert (Hinvl : Inv E fmts wl) by (eapply inv_frame; [exact Fo | exact F3 | exact Hinv]).
       assert (Hnsl : NS E fmts wl) by (unfold NS; rewrite F3; exact Hns0).
       assert (Hbl : nth_error (w_bks wl) b = Some bk) by (rewrite F3; exact Hb).
